@@ -1,8 +1,8 @@
 """Which suites, theorems and extracted data decide which property."""
-from . import dhcpwire, pool, dhcp, acl, dnsrate, dnscache, dnsroute, dnswire, leasedb, radv
+from . import dhcpwire, pool, dhcp, acl, dnsrate, dnscache, dnsroute, dnswire, leasedb, radv, dhcpcfg
 
 SUITES = {}
-for cls in [dhcpwire.DhcpRoundTrip, dhcpwire.DhcpParse, dhcpwire.Frame, dhcpwire.BroadcastFlag, pool.PoolHistory, dhcp.DhcpHistory, acl.AclSuite, acl.LeaseJson, dnsrate.BucketSuite, dnsrate.RateLimitSuite, dnscache.CacheSuite, dnsroute.RouteSuite, dnswire.DnsEnc, dnswire.DnsDec, dnswire.InReply, leasedb.LeaseDb, radv.RaSuite]:
+for cls in [dhcpwire.DhcpRoundTrip, dhcpwire.DhcpParse, dhcpwire.Frame, dhcpwire.BroadcastFlag, pool.PoolHistory, dhcp.DhcpHistory, acl.AclSuite, acl.LeaseJson, dnsrate.BucketSuite, dnsrate.RateLimitSuite, dnscache.CacheSuite, dnsroute.RouteSuite, dnswire.DnsEnc, dnswire.DnsDec, dnswire.InReply, leasedb.LeaseDb, radv.RaSuite, dhcpcfg.DhcpCfg]:
     SUITES[cls.name] = cls()
 
 TRUSTED_BASE = [
@@ -152,6 +152,19 @@ PROPS = {
         assumptions=POOL_ASSUME + ["each SQLite statement / transaction is atomic and durable (SQLite's guarantee)",
                                    "a crash is simulated by making the next statement fail; SIGKILL of a live process is not exercised in this suite"],
         trusted=POOL_TRUST,
+    ),
+    "C02": dict(
+        suites=[("dhcpcfg", 2500, 60000), ("dhcp", 1200, 30000)],
+        extracted=["dhcp.defaultRangeUpperMinus", "dhcp.applySubnetUpperMinus", "dhcp.applyRangeInclusive"],
+        rule="configurations generated together with a structural description: 0..2 `addresses` prefixes /24../32 (with and without "
+             "host bits), optional IPv6 prefix, policy forests up to depth 4 with 1..3 siblings per level whose policies carry any "
+             "combination of apply-address, apply-range (incl. single-address and reversed) and apply-subnet /24../32 drawn from one "
+             "/24 so that parents and descendants overlap; server address inside/outside the prefix, on the network and broadcast "
+             "address; loaded by the real loader, every policy's address set (pre-order) and every default pool of "
+             "build_default_config enumerated address by address and compared with the model and with the documented sets; "
+             "non-trivial = at least one non-empty set || " + DHCP_RULE,
+        assumptions=["prefix lengths shorter than /20 are covered by the theorems only (enumerating them is 2^12.. addresses per case)"],
+        trusted=DHCP_TRUST,
     ),
     "C17": dict(
         suites=[("ra", 2500, 60000)],
